@@ -177,7 +177,8 @@ fn gen_c12(run_seed: u64, tier: Tier) -> (Scenario, &'static str) {
 }
 
 fn claims_c12(v: &Violation) -> bool {
-    v.prop == "C12"
+    // a response stream the client cannot parse any more means requests went unanswered
+    v.prop == "C12" || (v.prop == "C11" && v.clause == "not-a-response-frame")
 }
 
 // ------------------------------------------------------------------ C13
